@@ -155,3 +155,68 @@ def lm_specs(min_V=1, max_V=4, max_cond=3, q=4, lo=-12, hi=12, distinct_rows=Tru
         return spec
 
     return _spec()
+
+
+# ---------------------------------------------------------------- large models, fast chain
+#
+# Added for the size / call-pattern classes of C04, C05 and C07.  Nothing above is changed.
+
+
+def expand_spec(small: dict) -> dict:
+    """A HashLM specification with a large vocabulary as a pure function of a few integers.
+
+    small = {"V", "M", "mult", "C", "seed", "q" (optional), "ninf_every" (optional)}.
+    Row s of the table is v -> (a_s * (v + 1)) mod P with P the smallest prime > V and a_s in 1..P-1:
+    a permutation of distinct values, so next-token logits (k/q grid) have no ties within a state.
+    Condition rows are small pseudo-random offsets in [-16, 16]."""
+    from .declayout import lcg_ints, next_prime
+
+    V, M, C = int(small["V"]), int(small["M"]), int(small["C"])
+    P = next_prime(V + 1)
+    a = lcg_ints(small["seed"], M, 1, P - 1)
+    table = [[(a[s] * (v + 1)) % P for v in range(V)] for s in range(M)]
+    flat = lcg_ints(int(small["seed"]) + 1, C * V, -16, 16)
+    cond = [flat[c * V:(c + 1) * V] for c in range(C)]
+    spec = {"V": V, "M": M, "mult": int(small["mult"]), "table": table, "cond": cond, "q": small.get("q", 4)}
+    return spec
+
+
+class PyLM:
+    """Pure-Python mirror of HashLM with the log-softmax rows cached per (state, condition): the chain
+    of a path costs O(length) after the rows it visits have been computed once (float64, math.fsum)."""
+
+    def __init__(self, spec: dict):
+        self.spec = spec
+        self.V, self.M, self.mult = int(spec["V"]), int(spec["M"]), int(spec["mult"])
+        self.q = float(spec.get("q", 4))
+        self.dead = {}
+        for st_, t in spec.get("ninf", []):
+            self.dead.setdefault(int(st_), set()).add(int(t))
+        self.rows: Dict[Tuple[int, int], List[float]] = {}
+
+    def row(self, cond: int, state: int) -> List[float]:
+        key = (cond, state)
+        r = self.rows.get(key)
+        if r is None:
+            dead = self.dead.get(state, ())
+            xs = [float("-inf") if v in dead else (a + b) / self.q
+                  for v, (a, b) in enumerate(zip(self.spec["table"][state], self.spec["cond"][cond]))]
+            m = max(xs)
+            z = m + math.log(math.fsum(math.exp(x - m) for x in xs))
+            r = [x - z for x in xs]
+            self.rows[key] = r
+        return r
+
+    def chain(self, cond: int, tokens: Sequence[int]) -> float:
+        s = (0 * self.mult + self.V + 1) % self.M
+        terms = []
+        for x in tokens:
+            terms.append(self.row(cond, s)[int(x)])
+            s = (s * self.mult + int(x) + 1) % self.M
+        return math.fsum(terms)
+
+    def next_log_probs(self, cond: int, tokens: Sequence[int]) -> List[float]:
+        s = (0 * self.mult + self.V + 1) % self.M
+        for x in tokens:
+            s = (s * self.mult + int(x) + 1) % self.M
+        return self.row(cond, s)
